@@ -64,6 +64,12 @@ QuantCases ==
     \cup {Case(<<Val(Arr(<<Small(1)>>)), CloOp(ps, TrueBody), Bin(op)>>, NoEnv) : ps \in {<<>>, <<"p", "q">>}, op \in {"All", "Any"}}
     \* nesting: inner closure sees the outer parameter; same name = shadowing error
     \cup {Case(<<Val(Arr(<<Small(1), Small(3)>>)), CloOp(<<"p">>, Nested("p", q)), Bin(op)>>, NoEnv) : q \in {"q", "p"}, op \in {"All", "Any"}}
+    \* shadowing is an error even when nothing gets bound: empty collections, at top level and nested
+    \cup {Case(<<Val(c), CloOp(<<"p">>, TrueBody), Bin(op)>>, [x \in {"p"} |-> Small(5)]) :
+            c \in {SetV({}), Arr(<<>>), MapV({}), SetV({Small(1)}), MapV({<<Str("a"), Small(1)>>})}, op \in {"All", "Any"}}
+    \cup {Case(<<Val(Arr(<<Small(1)>>)), CloOp(<<"p">>, <<Val(c), CloOp(<<"p">>, TrueBody), Bin(op2)>>), Bin(op)>>, NoEnv) :
+            c \in {SetV({}), Arr(<<>>), MapV({})}, op \in {"All", "Any"}, op2 \in {"All", "Any"}}
+    \cup {Case(<<Val(T), CloOp(<<>>, <<Val(Arr(<<>>)), CloOp(<<"x">>, TrueBody), Bin("All")>>), Bin("LazyAnd")>>, [x \in {"x"} |-> Small(5)])}
     \* shadowing of a variable bound by the rule
     \cup {Case(<<Val(Arr(<<Small(1)>>)), CloOp(<<"p">>, TrueBody), Bin("All")>>, [x \in {"p"} |-> Small(5)])}
     \cup {Case(<<Val(Arr(<<Small(1)>>)), CloOp(<<"p">>, <<Var("p"), Var("x"), Bin("LessThan")>>), Bin("Any")>>, [x \in {"x"} |-> Small(5)])}
